@@ -79,10 +79,14 @@ macro "all_to_res" : tactic =>
       | apply allToRes_append | apply allToRes_ite | apply allToRes_cons (fun d hd => by cases hd; rfl)))
 
 theorem prog_allToRes (o : Op) (inp : Input) (a : Nat) (h : keeps o inp a = true) : AllToRes (prog o inp) := by
-  cases o <;> simp only [keeps, Bool.false_eq_true] at h <;> simp only [prog] <;> all_to_res
+  cases o <;> simp only [keeps, Bool.false_eq_true] at h <;> simp only [prog] <;> first | (all_to_res; done) | skip
+  case optBind =>
+    -- the function keeps the element (`par0 = 1`): the branch that lets it die is excluded
+    simp only [beq_iff_eq] at h
+    simp only [h, if_true]
+    all_to_res
   -- eithSequence: a match on the position of the first failure
-  all_goals
-    split <;> all_to_res
+  case eithSequence => split <;> all_to_res
 
 /-! ## the program consumes every element object of the argument -/
 
@@ -241,10 +245,6 @@ theorem prog_covers_0 (o : Op) (inp : Input) (a : Nat) (hc : chunk o = 0) (hw : 
   case foldBreak =>
     obtain ⟨⟨⟨⟨_, _⟩, _⟩, hn1⟩, _⟩ := hs
     exact covers_head_one _ _ _ hn1
-  case optBind =>
-    simp only [beq_iff_eq] at hk
-    simp only [hk, if_true]
-    covers_tac
   case optFilter =>
     simp only [beq_iff_eq] at hk
     simp only [hk, if_true]
